@@ -4,6 +4,7 @@ Kernel-decided obligations about the message tables generated from /repo
 -/
 import NetqasmVerif.Model.Msg
 import NetqasmVerif.Gen.MsgLayouts
+import NetqasmVerif.Model.MsgSpec
 namespace NQ.MsgObl
 open NQ NQ.Msg
 
@@ -55,5 +56,21 @@ theorem struct_probes_match : Gen.structEncProbes.all
 theorem probes_cover : Gen.msgTables.layouts.all (fun M =>
     Gen.msgEncProbes.any (fun p => p.1 == M.lay.cls) &&
     Gen.msgDecProbes.any (fun p => p.1 == M.lay.cls)) = true := by decide +kernel
+
+/-- the live message formats are the pinned ones: every message class with its type byte, size and
+every leaf field (name, bit position, width, signedness), both dispatch tables, the array header,
+`OptionalInt` and its tags.  A field narrowed / widened / moved / re-typed in /repo fails here. -/
+theorem msg_layouts_pinned :
+    (Gen.msgTables.layouts == MsgSpec.tables.layouts
+      && Gen.msgTables.hostDispatch == MsgSpec.tables.hostDispatch
+      && Gen.msgTables.returnDispatch == MsgSpec.tables.returnDispatch
+      && Gen.msgTables.subroutineCls == MsgSpec.tables.subroutineCls
+      && Gen.msgTables.subroutineTy == MsgSpec.tables.subroutineTy
+      && Gen.msgTables.retArrCls == MsgSpec.tables.retArrCls
+      && Gen.msgTables.retArrTy == MsgSpec.tables.retArrTy
+      && Gen.msgTables.retArrHeader == MsgSpec.tables.retArrHeader
+      && Gen.msgTables.optionalInt == MsgSpec.tables.optionalInt
+      && Gen.msgTables.nullTag == MsgSpec.tables.nullTag
+      && Gen.msgTables.intTag == MsgSpec.tables.intTag) = true := by decide +kernel
 
 end NQ.MsgObl
